@@ -457,6 +457,9 @@ func reportViolation(t *testing.T, opt Options, fn EngineFunc, known *KnownFindi
 			if !sameViolation(viol, o, opt, r.Property) {
 				return false
 			}
+			if minimised && len(c.Recorded()) > len(best) {
+				return false // never trade for a longer trace
+			}
 			best = append([]Choice{}, c.Recorded()...)
 			bestRun = o.r
 			if o.r.viol != nil {
